@@ -43,6 +43,8 @@ def run(ctx, R, tier):
     from .c08 import drops
     drops(F, R)
     # 'multiplied by the volume ...': the volume in use is the parameter's, not a cached copy of it
+    from .c06 import in_chunk_time
+    in_chunk_time(F, R, rule='B.C02.in-chunk')
     from .c06 import param_cache
     param_cache(F, R, rule='B.C02.param-cache', fn_filter=lambda q: q.startswith('track::') or q.startswith('backend::'), floor=5)
 
